@@ -517,7 +517,11 @@ class Library:
             if type(d) is int:
                 return self.some(o[1]) if d == 0 else self.none()
             if o.tag == 'symenum':
-                raise Unsupported('Result::ok on a variant-map enum')
+                okf = o[1].get(0)
+                vm = {0: I.mk([])}
+                if okf is not None:
+                    vm[1] = I.mk([okf[0]])
+                return I.mk([T.zext(1, 64, T.eq(64, d, 0)), vm], 'symenum')
             return I.mk([T.zext(1, 64, T.eq(64, d, 0)), o[1]], 'enum')
 
         @reg(r'^Option::<.*>::and_then::<', 'Option::and_then')
@@ -528,7 +532,23 @@ class Library:
                 if d == 0:
                     return self.none()
                 return I.call_closure(fr, f, [o[1]])
-            raise Unsupported('and_then on a symbolic Option')
+            # case split: the closure runs under "is Some"; None stays None
+            is_some = T.eq(64, d, 1)
+            I.pc.append(is_some)
+            try:
+                r = I.call_closure(fr, f, [self.payload(o, 1)])
+            finally:
+                I.pc.pop()
+            if r is DEAD:
+                raise Unsupported('closure of and_then diverges under a symbolic Option')
+            m_ = re.match(r'^Option::<.*>::and_then::<(.*?), ', name)
+            ty = None
+            if m_:
+                try:
+                    ty = parse_type('Option<%s>' % m_.group(1))
+                except Exception:
+                    ty = None
+            return I.merge(is_some, r, self.none(), ty)
 
         @reg(r'^Option::<.*>::unwrap_or_default$', 'Option::unwrap_or_default')
         def _unwrap_or_default(fr, name, args, ops):
@@ -612,16 +632,41 @@ class Library:
         def _index(fr, name, args, ops):
             return self.index(args[0], args[1], 'index_mut' in name)
 
-        @reg(r'^<(str|String) as Index(Mut)?<Range.*>>::index(_mut)?$', 'str range index (byte offsets)')
+        @reg(r'^<(str|String) as Index(Mut)?<(std::ops::|core::ops::)?Range.*>>::index(_mut)?$', 'str range index (byte offsets)')
         def _str_index(fr, name, args, ops):
             base = args[0]
             if type(base) is Ptr and type(base.c[base.k]) is L and base.c[base.k].tag == 'String':
                 b_ = base.c[base.k][0]
                 base = SliceRef(b_, 0, len(b_), True)
             if type(base) is SliceRef:
-                for x in base.items():
-                    if not ((type(x) is int and x < 0x80) or (type(x) is Term and T.umax(x, x.w) < 0x80)):
-                        raise Unsupported('byte-offset slicing of a string that may hold non-ASCII characters')
+                items = base.items()
+                if any(type(x) is int and x >= 0x80 for x in items) or any(type(x) not in (int, Term) for x in items):
+                    raise Unsupported('byte-offset slicing of a string with concrete non-ASCII or conditional pieces')
+                if any(self.may_be_non_ascii(x) for x in items):
+                    # symbolic bytes: str slicing panics unless both ends are char boundaries
+                    idx = args[1]
+                    from .mirsym import Obligation
+                    ends = []
+                    if type(idx) is L and idx.tag == 'Range':
+                        ends = [idx[0], idx[1]]
+                    elif type(idx) is L and idx.tag == 'RangeTo':
+                        ends = [idx[0]]
+                    elif type(idx) is L and idx.tag == 'RangeFrom':
+                        ends = [idx[0]]
+                    elif type(idx) is L and idx.tag == 'RangeIncl':
+                        ends = [idx[0], idx[1] + 1 if type(idx[1]) is int else idx[1]]
+                    for e_ in ends:
+                        if type(e_) is not int:
+                            raise Unsupported('str slicing at a symbolic offset')
+                        if e_ > len(items):
+                            continue            # reported as out of range by index()
+                        c = self.char_boundary(items, e_)
+                        if type(c) is int:
+                            if not c:
+                                return I.panic(fr, 'byte index %d is not a char boundary' % e_)
+                        else:
+                            I.obligations.append(Obligation(tuple(I.pc), c, 'bounds', 'str range index', 'byte index %d is not a char boundary' % e_))
+                            I.facts.append(T.implies(T.and_many(I.pc), c))
             return self.index(base, args[1], False)
 
         @reg(r'^<Vec<.*> as Deref(Mut)?>::deref(_mut)?$', 'Vec::deref')
